@@ -195,8 +195,43 @@ def havoc_modifies(ex, c, env, st_pre, st):
             arr = ex.heap_term(st, key, ft)
             nv = ex.cx.fresh("hv_" + f.strip("<>_"), ft)
             new = "(store %s %s %s)" % (arr, objv.t, nv.t)
-            st = st.with_heap(key, ITE(present, new, arr))
+            st = ex.set_heap(st, key, ITE(present, new, arr), ft)
     return st
+
+
+def alloc_term(ex, st):
+    arr = st.heap.get(("$", "alloc"))
+    if arr is None:
+        if "alloc@0" not in ex.cx.funs_known:
+            ex.cx.funs_known.add("alloc@0")
+            ex.cx.consts.append(("alloc@0", "(Array Int Bool)"))
+        arr = "alloc@0"
+    return arr
+
+
+def havoc_allocation(ex, c, st_pre, post):
+    """the callee may allocate objects of the classes it declares: the allocation set grows, and the
+    fields of those classes are arbitrary at objects that were not allocated before the call"""
+    cx = ex.cx
+    a0 = alloc_term(ex, st_pre)
+    a1 = cx.fresh_sort("alloc", "(Array Int Bool)")
+    post = post.with_heap(("$", "alloc"), a1)
+    facts = ["(forall ((r Int)) (=> (select %s r) (select %s r)))" % (a0, a1)]
+    for cname in c.allocates:
+        classes = [cname] + [b.name for b in ex.repo.classes[cname].mro[1:] if hasattr(b, "name")]
+        for cn in classes:
+            sc = ex.specs.schemas.get(cn)
+            if sc is None:
+                continue
+            for f, ft in list(sc.fields.items()) + list(sc.ghost.items()):
+                if ft == T.PYOBJ:
+                    continue
+                key = (cn, f)
+                cur = ex.heap_term(post, key, ft)
+                nw = cx.fresh_sort("HA_%s_%s" % (cn, f.strip("_")), "(Array Int %s)" % cx.sorts.sort(ft))
+                facts.append("(forall ((r Int)) (=> (select %s r) (= (select %s r) (select %s r))))" % (a0, nw, cur))
+                post = post.with_heap(key, nw)
+    return post.assume(*facts)
 
 
 def apply_contract(ex, c, fi, args, kwargs, st, k, ctl, node):
@@ -233,6 +268,8 @@ def apply_contract(ex, c, fi, args, kwargs, st, k, ctl, node):
                 return k(st, v)
     # 2. havoc what the callee may modify, allocate the result
     post = havoc_modifies(ex, c, pre.env, st, st)
+    if c.allocates:
+        post = havoc_allocation(ex, c, st, post)
     if c.ret == T.NONE:
         result = SV("none", T.NONE)
     elif c.ret == T.PYOBJ:
@@ -262,7 +299,9 @@ def apply_contract(ex, c, fi, args, kwargs, st, k, ctl, node):
         val = ex.spec_eval(ve, ps)
         post = ex.field_write(obj, field, val, post)
     ps = post.copy(env=penv, spec=True, old=pre, fn=fi)
-    facts = [ex.spec_bool(e, ps) for _, e in c.ensures]
+    cur = getattr(ex, "current_contract", None)
+    wanted = cur.uses.get(c.target) if (cur is not None and not st.spec) else None
+    facts = [ex.spec_bool(e, ps) for n_, e in c.ensures if wanted is None or n_ in wanted]
     if st.spec:
         # the caller keeps no state in specification mode: the facts about the fresh result become
         # global assumptions (only possible when no bound variable occurs in them)
@@ -291,11 +330,28 @@ def construct(ex, ci, args, kwargs, st, k, ctl, node):
     return apply_contract(ex, c, init, [r] + list(args), kwargs, st, lambda s, v: k(s, r), ctl, node)
 
 
+def construct_choice(ex, items, args, kwargs, st, k, ctl, node):
+    """construct an object whose class is one of several (all sharing one __init__), chosen by `cond`"""
+    ci0 = items[0][1]
+    init = ci0.lookup("__init__")
+    c = ex.specs.contracts.get(init.qualname)
+    if c is None:
+        raise Unsupported("constructor %s has no contract" % ci0.name, node)
+    static_cls = init.cls.name
+    r = ex.cx.fresh("new_" + static_cls, T.Ref(static_cls))
+    arr = alloc_term(ex, st)
+    facts = [NOT("(select %s %s)" % (arr, r.t))]
+    for cond, ci in items:
+        facts.append(IMPLIES(cond, ex.cls_exact(r.t, ci.name)))
+    st = st.assume(*facts).with_heap(("$", "alloc"), "(store %s %s true)" % (arr, r.t))
+    return apply_contract(ex, c, init, [r] + list(args), kwargs, st, lambda s, v: k(s, r), ctl, node)
+
+
 # ---------------------------------------------------------------------- verifying one contract
 def verify_contract(ex, c):
     cx = ex.cx
     ex.reveals = set(c.reveals)
-    fi = ex.repo.func(c.target)
+    fi = ex.repo.func(c.target.split('#')[0])
     is_value_init = fi.cls is not None and fi.cls.name in T.VALUE_CLASSES and fi.node.name == "__init__" \
         and (not c.params or c.params[0][0] != "self")
     env = {}
@@ -329,7 +385,9 @@ def verify_contract(ex, c):
     pre = pre.copy(pc=base.pc)
     T0 = short(c.target)
 
-    def frame_obligations(s, tag):
+    def frame_formulas(s, only_keys=None):
+        """for every heap field written on this path: it equals its initial value except at the objects
+        the modifies clause names -> list of (key, formula)"""
         mod = {}
         for objexpr, fields in c.modifies:
             obj = ex.spec_eval(objexpr, pre)
@@ -341,8 +399,11 @@ def verify_contract(ex, c):
                     d = ex.field_decl(_reft(obj).args[0], f)
                     key = (d[0], f)
                 mod.setdefault(key, []).append(obj)
+        out = []
         for key, term in s.heap.items():
             if key[0] == "$":
+                continue
+            if only_keys is not None and key not in only_keys:
                 continue
             sc = ex.specs.schemas.get(key[0])
             ft = T.Map(*sc.dict_of) if key[1] == "<dict>" else sc.field_type(key[1])
@@ -360,7 +421,18 @@ def verify_contract(ex, c):
                                   "(store %s %s (select %s %s))" % (allowed, ot, term, ot))
                 else:
                     allowed = "(store %s %s (select %s %s))" % (allowed, obj.t, term, obj.t)
-            cx.oblige("%s/frame:%s.%s%s" % (T0, key[0], key[1], tag), s, EQ(term, allowed),
+            if ("$", "alloc") in s.heap or c.allocates:
+                a0 = alloc_term(ex, st0)
+                out.append((key, "(forall ((r Int)) (=> (select %s r) (= (select %s r) (select %s r))))" % (a0, term, allowed)))
+            else:
+                out.append((key, EQ(term, allowed)))
+        return out
+
+    ex.frame_formulas = frame_formulas
+
+    def frame_obligations(s, tag):
+        for key, g in frame_formulas(s):
+            cx.oblige("%s/frame:%s.%s%s" % (T0, key[0], key[1], tag), s, g,
                       {"kind": "frame", "function": c.target})
 
     def on_ret(s, v):
